@@ -213,6 +213,7 @@ function runFindingWitnesses(ctx) {
 }
 
 export async function run(ctx) {
+  X.sameOptions.signedZero = false // an updated instance is compared with a fresh one: the runtime's change detection is `!==`
   if (ctx.shard === 0) runFindingWitnesses(ctx)
   const N = ctx.tier === 'thorough' ? 8000 : 700
   const cases = makeCases(ctx, N)
@@ -221,5 +222,6 @@ export async function run(ctx) {
 }
 
 export async function replay(ctx) {
+  X.sameOptions.signedZero = false
   runBatch(ctx, makeCases(ctx, 1, [ctx.replay.witness.caseSeed]))
 }
